@@ -577,6 +577,69 @@ func ruleLexCursor(c *Ctx) []Obligation {
 			}
 		}
 		obs = append(obs, o1)
+		// (1b) … of the UNCHANGED source: every location (index, line, column) refers to the text the host supplied
+		if bufExpr != nil {
+			o1b := Obligation{Key: "lexer." + name + "|rune buffer is the unmodified source parameter", Pos: c.Pos(fd.Pos()), Nontrivial: true}
+			resolve := func(e ast.Expr) ast.Expr {
+				for depth := 0; depth < 4; depth++ {
+					e = ast.Unparen(e)
+					id, ok := e.(*ast.Ident)
+					if !ok {
+						return e
+					}
+					obj := info.Uses[id]
+					var defs []ast.Expr
+					ast.Inspect(fd.Body, func(n ast.Node) bool {
+						if as, ok := n.(*ast.AssignStmt); ok && len(as.Lhs) == len(as.Rhs) {
+							for i, l := range as.Lhs {
+								if lid, ok := l.(*ast.Ident); ok && obj != nil && (info.Defs[lid] == obj || info.Uses[lid] == obj) {
+									defs = append(defs, as.Rhs[i])
+								}
+							}
+						}
+						return true
+					})
+					if len(defs) != 1 {
+						return e
+					}
+					e = defs[0]
+				}
+				return e
+			}
+			isParam := func(e ast.Expr) bool {
+				id, ok := ast.Unparen(e).(*ast.Ident)
+				if !ok {
+					return false
+				}
+				v, ok := info.Uses[id].(*types.Var)
+				if !ok {
+					return false
+				}
+				sig := info.Defs[fd.Name].Type().(*types.Signature)
+				for i := 0; i < sig.Params().Len(); i++ {
+					if sig.Params().At(i) == v {
+						return true
+					}
+				}
+				return false
+			}
+			be := resolve(bufExpr)
+			conv, isCall := be.(*ast.CallExpr)
+			switch {
+			case isCall && len(conv.Args) == 1 && info.Types[conv.Fun].IsType():
+				src := resolve(conv.Args[0])
+				if isParam(src) {
+					o1b.Status, o1b.Detail = Discharged, "[]rune(" + exprStr(src) + ") of the constructor's own parameter"
+				} else if _, isC := src.(*ast.CallExpr); isC {
+					o1b.Status, o1b.Detail = Violated, "the buffer is built from " + exprStr(src) + ": the source text is transformed before it is lexed, so token indices / columns and the content of string literals no longer refer to the text the host supplied"
+				} else {
+					o1b.Status, o1b.Detail = Undecided, "the converted expression " + exprStr(src) + " is not a parameter of the constructor"
+				}
+			default:
+				o1b.Status, o1b.Detail = Undecided, "the buffer expression " + exprStr(be) + " is not a conversion of the source"
+			}
+			obs = append(obs, o1b)
+		}
 		// index starts at 0
 		if ie := fieldExpr[idxF]; ie != nil {
 			if tv := info.Types[ie]; tv.Value == nil || constant.Sign(tv.Value) != 0 {
